@@ -81,11 +81,19 @@ func (c *vnChainState) IsNodeValidator(_ context.Context, nodeID ids.NodeID, _ u
 }
 
 // ---- rules
-type vnRules struct{ window int64 }
+type vnRules struct {
+	window int64
+	limit  uint64 // per-producer pending weight limit in bytes (0 = practically unlimited)
+}
 
-func (r vnRules) GetRules(int64) Rules                        { return r }
-func (r vnRules) GetValidityWindow() int64                    { return r.window }
-func (vnRules) GetMaxAccumulatedProducerChunkWeight() uint64 { return 1 << 40 }
+func (r vnRules) GetRules(int64) Rules     { return r }
+func (r vnRules) GetValidityWindow() int64 { return r.window }
+func (r vnRules) GetMaxAccumulatedProducerChunkWeight() uint64 {
+	if r.limit == 0 {
+		return 1 << 40
+	}
+	return r.limit
+}
 
 // ---- chain index of the validity window: the blocks the driver has verified
 type vnIndex struct {
@@ -121,6 +129,7 @@ type vnNet struct {
 	vals   []vnValidator
 	cs     *vnChainState
 	window int64
+	limit  uint64 // rule limit given to the nodes created next (0 = unlimited)
 }
 
 func newVnNet(t *testing.T, n int, window int64) *vnNet {
@@ -150,7 +159,7 @@ type vnNode struct {
 func (net *vnNet) newNode(i int, getChunkPeers map[ids.NodeID]p2p.Handler, selfGetChunk p2p.Handler) *vnNode {
 	t := net.t
 	v := net.vals[i]
-	rules := vnRules{window: net.window}
+	rules := vnRules{window: net.window, limit: net.limit}
 	signer := warp.NewSigner(v.sk, vnNetworkID, vnChainID)
 	verifier := NewChunkVerifier[dsmrtest.Tx](net.cs, rules)
 	storage, err := NewChunkStorage[dsmrtest.Tx](verifier, memdb.New(), rules)
